@@ -1,5 +1,6 @@
 import JaqalModel.Model.UnitTimingCircuit
 import JaqalModel.Spec.Schedule
+import JaqalModel.Spec.Sem
 import JaqalProofs.Lemmas.UnitTiming
 /-!
 Lemmas for `Props/C19Circuit.lean`: the unit-timing pass on the circuit IR (`Jaqal.UnitTimingCircuit`) refines the
@@ -730,5 +731,272 @@ theorem skelList_inj_self (l l' : List Stmt)
     (by simp [allGates]) (by intro v hv; simpa [cnts] using hv)
     (.block false false (.int 1) l') (by simp only [skel]; unfold selfLabelling at h; rw [h])
   simpa using this
+
+/-! ## gate-level meaning (`Spec/Sem.lean`) -/
+
+section Meaning
+open Jaqal.Sem
+
+theorem unrollList_append' : ∀ (a b : List Sem), Sem.unrollList (a ++ b) = Sem.unrollList a ++ Sem.unrollList b
+  | [], b => by simp [Sem.unrollList]
+  | x :: r, b => by simp [Sem.unrollList, unrollList_append' r b]
+
+mutual
+  /-- (as `RunModel.unroll_norm`; repeated here to keep this file's imports light) -/
+  theorem unroll_norm' : ∀ (s : Sem), s.norm.unroll = s.unroll
+    | .gate n a => by simp [Sem.norm]
+    | .loop n b => by simp [Sem.norm, Sem.unroll, unroll_norm' b]
+    | .blk par sub it body => by simp [Sem.norm, Sem.unroll, unrollList_normList' par body]
+  theorem unrollList_normList' (par : Bool) : ∀ (l : List Sem), Sem.unrollList (normList par l) = Sem.unrollList l
+    | [] => by simp [normList]
+    | .gate n a :: r => by simp [normList, Sem.norm, Sem.unrollList, unrollList_normList' par r]
+    | .loop n b :: r => by
+      simp [normList, Sem.norm, Sem.unrollList, Sem.unroll, unroll_norm' b, unrollList_normList' par r]
+    | .blk p true it body :: r => by
+      simp [normList, Sem.norm, Sem.unrollList, Sem.unroll, unrollList_normList' p body, unrollList_normList' par r]
+    | .blk p false it body :: r => by
+      simp only [normList]
+      by_cases hp : p = par
+      · subst hp
+        simp only [if_true, unrollList_append', Sem.unrollList, Sem.unroll, unrollList_normList' p body,
+          unrollList_normList' p r]
+      · simp only [hp, if_false, Sem.unrollList, Sem.unroll, unrollList_normList' p body, unrollList_normList' par r]
+end
+
+variable (ρ : Env) (md : MacroDen) (bd : Bind)
+
+/-- the statement has a meaning -/
+def Evaluable (s : Stmt) : Prop := ∃ m, evalStmt ρ md bd s = .ok m
+
+/-- the unrolled gate applications of a statement (nothing when it has no meaning) -/
+def apps (s : Stmt) : List GateApp :=
+  match evalStmt ρ md bd s with
+  | .ok m => m.unroll
+  | .error _ => []
+
+def appsList (l : List Stmt) : List GateApp := l.flatMap (apps ρ md bd)
+
+theorem evalStmts_ok {l : List Stmt} {ms} (h : evalStmts ρ md bd l = .ok ms) :
+    (∀ x ∈ l, Evaluable ρ md bd x) ∧ Sem.unrollList ms = appsList ρ md bd l := by
+  induction l generalizing ms with
+  | nil => simp [evalStmts, pure, Except.pure] at h; subst h; simp [Sem.unrollList, appsList]
+  | cons s r ih =>
+    simp only [evalStmts, bind, Except.bind] at h
+    cases h1 : evalStmt ρ md bd s with
+    | error e => simp [h1] at h
+    | ok m =>
+      cases h2 : evalStmts ρ md bd r with
+      | error e => simp [h1, h2] at h
+      | ok ms' =>
+        simp [h1, h2, pure, Except.pure] at h; subst h
+        obtain ⟨a, b⟩ := ih h2
+        refine ⟨?_, ?_⟩
+        · intro x hx
+          simp only [List.mem_cons] at hx
+          rcases hx with rfl | hx
+          · exact ⟨m, h1⟩
+          · exact a x hx
+        · simp only [appsList] at b
+          simp [Sem.unrollList, appsList, apps, h1, b]
+
+theorem evalStmts_of_all {l : List Stmt} (h : ∀ x ∈ l, Evaluable ρ md bd x) : ∃ ms, evalStmts ρ md bd l = .ok ms := by
+  induction l with
+  | nil => exact ⟨[], rfl⟩
+  | cons s r ih =>
+    obtain ⟨m, hm⟩ := h s (by simp)
+    obtain ⟨ms, hms⟩ := ih (fun x hx => h x (by simp [hx]))
+    exact ⟨m :: ms, by simp [evalStmts, hm, hms, bind, Except.bind, pure, Except.pure]⟩
+
+theorem evaluable_block {par sub it body} :
+    Evaluable ρ md bd (.block par sub it body) ↔
+      (∃ n, evalInt ρ bd it = .ok n) ∧ ∀ x ∈ body, Evaluable ρ md bd x := by
+  constructor
+  · rintro ⟨m, hm⟩
+    simp only [evalStmt, bind, Except.bind] at hm
+    cases h1 : evalInt ρ bd it with
+    | error e => simp [h1] at hm
+    | ok n =>
+      cases h2 : evalStmts ρ md bd body with
+      | error e => simp [h1, h2] at hm
+      | ok ms => exact ⟨⟨n, rfl⟩, (evalStmts_ok ρ md bd h2).1⟩
+  · rintro ⟨⟨n, hn⟩, hall⟩
+    obtain ⟨ms, hms⟩ := evalStmts_of_all ρ md bd hall
+    exact ⟨.blk par sub n ms, by simp [evalStmt, hn, hms, bind, Except.bind, pure, Except.pure]⟩
+
+theorem apps_block {par sub it body} (h : Evaluable ρ md bd (.block par sub it body)) :
+    apps ρ md bd (.block par sub it body) = appsList ρ md bd body := by
+  obtain ⟨⟨n, hn⟩, hall⟩ := (evaluable_block ρ md bd).1 h
+  obtain ⟨ms, hms⟩ := evalStmts_of_all ρ md bd hall
+  have := (evalStmts_ok ρ md bd hms).2
+  simp [apps, evalStmt, hn, hms, bind, Except.bind, pure, Except.pure, Sem.unroll, this]
+
+theorem appsList_append (a b : List Stmt) : appsList ρ md bd (a ++ b) = appsList ρ md bd a ++ appsList ρ md bd b := by
+  simp [appsList]
+
+theorem evaluable_unroll {v} (h : Evaluable ρ md bd v) :
+    (∀ x ∈ unroll v, Evaluable ρ md bd x) ∧ appsList ρ md bd (unroll v) = apps ρ md bd v := by
+  cases v with
+  | gate n gd a => simp only [unroll, appsList]; exact ⟨by simpa using h, by simp⟩
+  | loop c b => simp only [unroll, appsList]; exact ⟨by simpa using h, by simp⟩
+  | block par sub it body =>
+    simp only [unroll]
+    split
+    · simp only [appsList]; exact ⟨by simpa using h, by simp⟩
+    · exact ⟨((evaluable_block ρ md bd).1 h).2, (apps_block ρ md bd h).symm⟩
+
+theorem evaluable_unrollAll {vs : List Stmt} (h : ∀ v ∈ vs, Evaluable ρ md bd v) :
+    (∀ x ∈ unrollAll vs, Evaluable ρ md bd x) ∧ appsList ρ md bd (unrollAll vs) = appsList ρ md bd vs := by
+  induction vs with
+  | nil => simp [unrollAll, appsList]
+  | cons v r ih =>
+    obtain ⟨a1, b1⟩ := evaluable_unroll ρ md bd (h v (by simp))
+    obtain ⟨a2, b2⟩ := ih (fun x hx => h x (by simp [hx]))
+    refine ⟨?_, ?_⟩
+    · intro x hx
+      simp only [unrollAll, List.mem_append] at hx
+      rcases hx with hx | hx
+      · exact a1 x hx
+      · exact a2 x hx
+    · simp only [unrollAll, appsList_append, b1, b2]
+      simp [appsList]
+
+theorem evalInt_one : evalInt ρ bd (.int 1) = .ok 1 := rfl
+
+theorem evaluable_emit {c : List Stmt} (h : ∀ x ∈ c, Evaluable ρ md bd x) :
+    Evaluable ρ md bd (emit c) ∧ apps ρ md bd (emit c) = appsList ρ md bd c := by
+  have hblk : Evaluable ρ md bd (.block true false (.int 1) c) :=
+    (evaluable_block ρ md bd).2 ⟨⟨1, evalInt_one ρ bd⟩, h⟩
+  match c, h, hblk with
+  | [], _, hblk => exact ⟨hblk, apps_block ρ md bd hblk⟩
+  | [s], h, _ => exact ⟨h s (by simp), by simp [emit, appsList]⟩
+  | s :: t :: r, _, hblk => exact ⟨hblk, apps_block ρ md bd hblk⟩
+
+theorem chunkOf_apps {row c} (h : chunkOf row = .ok c) (hall : ∀ x ∈ row, Evaluable ρ md bd x) :
+    (∀ x ∈ c, Evaluable ρ md bd x) ∧ appsList ρ md bd c = appsList ρ md bd row := by
+  induction row generalizing c with
+  | nil => simp [chunkOf] at h; subst h; simp
+  | cons s r ih =>
+    cases s with
+    | loop cnt b => simp [chunkOf] at h
+    | gate n gd a =>
+      simp only [chunkOf] at h
+      split at h
+      · cases h
+      · rename_i c' hc'
+        simp at h; subst h
+        obtain ⟨h1, h2⟩ := ih hc' (fun y hy => hall y (by simp [hy]))
+        refine ⟨fun x hx => ?_, ?_⟩
+        · simp only [List.mem_cons] at hx
+          rcases hx with rfl | hx
+          · exact hall _ (by simp)
+          · exact h1 x hx
+        · simp only [appsList] at h2; simp [appsList, h2]
+    | block par sub it body =>
+      simp only [chunkOf] at h
+      cases par
+      · simp at h
+      · simp only [if_true] at h
+        split at h
+        · cases h
+        · rename_i c' hc'
+          simp at h; subst h
+          obtain ⟨h1, h2⟩ := ih hc' (fun y hy => hall y (by simp [hy]))
+          have hb := hall (.block true sub it body) (by simp)
+          refine ⟨fun x hx => ?_, ?_⟩
+          · simp only [List.mem_append] at hx
+            rcases hx with hx | hx
+            · exact ((evaluable_block ρ md bd).1 hb).2 x hx
+            · exact h1 x hx
+          · rw [appsList_append, h2]
+            have := apps_block ρ md bd hb
+            simp only [appsList] at this ⊢
+            simp [this]
+
+theorem chunkRows_apps {rows cs} (h : chunkRows rows = .ok cs) (hall : ∀ r ∈ rows, ∀ x ∈ r, Evaluable ρ md bd x) :
+    (∀ c ∈ cs, ∀ x ∈ c, Evaluable ρ md bd x) ∧ appsList ρ md bd cs.flatten = appsList ρ md bd rows.flatten := by
+  induction rows generalizing cs with
+  | nil => simp [chunkRows] at h; subst h; simp
+  | cons r rs ih =>
+    simp only [chunkRows] at h
+    split at h
+    · cases h
+    · rename_i c hc
+      split at h
+      · cases h
+      · rename_i cs' hcs'
+        simp at h; subst h
+        obtain ⟨g1, k1⟩ := chunkOf_apps ρ md bd hc (hall r (by simp))
+        obtain ⟨g2, k2⟩ := ih hcs' (fun r' hr' => hall r' (by simp [hr']))
+        refine ⟨fun c' hc' x hx => ?_, by simp [appsList_append, k1, k2]⟩
+        simp only [List.mem_cons] at hc'
+        rcases hc' with rfl | hc'
+        · exact g1 x hx
+        · exact g2 c' hc' x hx
+
+theorem appsList_map_emit {cs : List (List Stmt)} (h : ∀ c ∈ cs, ∀ x ∈ c, Evaluable ρ md bd x) :
+    (∀ x ∈ cs.map emit, Evaluable ρ md bd x) ∧ appsList ρ md bd (cs.map emit) = appsList ρ md bd cs.flatten := by
+  induction cs with
+  | nil => simp [appsList]
+  | cons c r ih =>
+    obtain ⟨a1, b1⟩ := evaluable_emit ρ md bd (h c (by simp))
+    obtain ⟨a2, b2⟩ := ih (fun c' hc' => h c' (by simp [hc']))
+    refine ⟨fun x hx => ?_, ?_⟩
+    · simp only [List.map_cons, List.mem_cons] at hx
+      rcases hx with rfl | hx
+      · exact a1
+      · exact a2 x hx
+    · simp only [List.map_cons, List.flatten_cons, appsList_append, ← b2]
+      simp [appsList, b1]
+
+/-- a successful run keeps the meaning up to a permutation of the unrolled gate applications -/
+theorem normalize_meaning :
+    (∀ s v, normalizeStmt s = .ok v → Evaluable ρ md bd s →
+      Evaluable ρ md bd v ∧ (apps ρ md bd v).Perm (apps ρ md bd s)) ∧
+    (∀ l vs, normalizeList l = .ok vs → (∀ x ∈ l, Evaluable ρ md bd x) →
+      (∀ x ∈ vs, Evaluable ρ md bd x) ∧ (appsList ρ md bd vs).Perm (appsList ρ md bd l)) := by
+  apply normalize_ok_rec
+  · intro n gd a h; exact ⟨h, List.Perm.refl _⟩
+  · intro c b h; exact ⟨h, List.Perm.refl _⟩
+  · intro sub it body vs _ _ ih h
+    obtain ⟨hit, hall⟩ := (evaluable_block ρ md bd).1 h
+    obtain ⟨hvs, hp⟩ := ih hall
+    obtain ⟨hu, eu⟩ := evaluable_unrollAll ρ md bd hvs
+    have hv : Evaluable ρ md bd (.block false sub it (unrollAll vs)) := (evaluable_block ρ md bd).2 ⟨hit, hu⟩
+    refine ⟨hv, ?_⟩
+    rw [apps_block ρ md bd hv, apps_block ρ md bd h, eu]
+    exact hp
+  · intro sub it body vs chunks _ _ ih hc h
+    obtain ⟨hit, hall⟩ := (evaluable_block ρ md bd).1 h
+    obtain ⟨hvs, hp⟩ := ih hall
+    unfold chunkBlocks at hc
+    have hrows : ∀ r ∈ UnitTiming.zipLongest (vs.map unroll), ∀ x ∈ r, Evaluable ρ md bd x := by
+      refine UnitTiming.zipLongest_forall _ ?_
+      intro l hl x hxl
+      obtain ⟨v, hv, rfl⟩ := List.mem_map.1 hl
+      exact (evaluable_unroll ρ md bd (hvs v hv)).1 x hxl
+    obtain ⟨hcs, ecs⟩ := chunkRows_apps ρ md bd hc hrows
+    obtain ⟨hem, eem⟩ := appsList_map_emit ρ md bd hcs
+    have hv : Evaluable ρ md bd (.block false sub it (chunks.map emit)) := (evaluable_block ρ md bd).2 ⟨hit, hem⟩
+    refine ⟨hv, ?_⟩
+    rw [apps_block ρ md bd hv, apps_block ρ md bd h, eem, ecs]
+    have hz := UnitTiming.zipLongest_flatten_perm (vs.map unroll)
+    refine (List.Perm.flatMap_right _ hz).trans ?_
+    have : appsList ρ md bd (vs.map unroll).flatten = appsList ρ md bd vs := by
+      rw [← unrollAll_eq_flatten]; exact (evaluable_unrollAll ρ md bd hvs).2
+    simp only [appsList] at this hp ⊢
+    rw [this]; exact hp
+  · intro _; exact ⟨by simp, List.Perm.refl _⟩
+  · intro s ss v vs _ _ ih1 ih2 h
+    obtain ⟨a1, p1⟩ := ih1 (h s (by simp))
+    obtain ⟨a2, p2⟩ := ih2 (fun x hx => h x (by simp [hx]))
+    refine ⟨fun x hx => ?_, ?_⟩
+    · simp only [List.mem_cons] at hx
+      rcases hx with rfl | hx
+      · exact a1
+      · exact a2 x hx
+    · simp only [appsList, List.flatMap_cons] at p2 ⊢
+      exact p1.append p2
+
+end Meaning
 
 end Jaqal.UnitTimingCircuit
